@@ -30,6 +30,39 @@ SCALES = [0.5, 1.5, 2.0, 3.0, 1.0, 0.5, 1.5]      # mostly != 1: the scaling mus
 NEST = 2
 
 
+# ------------------------------------------------------------------------------ input presentations
+# The same VALUES handed over in different containers / dtypes.  X: integer lattice points are exact in every
+# presentation.  Weights: the model sees integers v; "near" presents them as the float64 numbers
+# -20000 + v * 2^-12 (exact in binary64, strictly increasing in v, so by C16_weight_remap the labels are
+# those of v) -- log-density-like weights that are DISTINCT in float64 but collapse in groups of 8 when rounded
+# to float32 (ulp 2^-9 near 2e4).  Plain-list X is not presented: the unchanged code needs X.shape / X[idx].
+X_KINDS = ["f64", "f32", "f32", "int", "fortran"]
+W_KINDS = ["f64", "near", "near", "f32", "i64", "list"]
+
+
+def present_X(X, n, dim, kind):
+    a = np.array(X, dtype=float).reshape(n, dim)
+    if kind == "f32":
+        return a.astype(np.float32)
+    if kind == "int":
+        return np.array(X, dtype=np.int64).reshape(n, dim)
+    if kind == "fortran":
+        return np.asfortranarray(a)
+    return a
+
+
+def present_w(w, kind):
+    if kind == "near":
+        return -20000.0 + np.array(w, dtype=float) * 2.0 ** -12
+    if kind == "f32":
+        return np.array(w, dtype=np.float32)
+    if kind == "i64":
+        return np.array(w, dtype=np.int64)
+    if kind == "list":
+        return [int(v) for v in w]
+    return np.array(w, dtype=float)
+
+
 # ------------------------------------------------------------------------------ generation
 def gen_session(rng, quick, P):
     """P: the c16 module (gen_points, exact_d2, gabriel_exact)."""
@@ -120,6 +153,9 @@ def gen_session(rng, quick, P):
             ops.append(dict(op="read", e=e))
     if not any(o["op"] == "fit" for o in ops):
         ops.append(dict(op="fit", e=built.index(True), d=0))
+    for q in data:                 # how the caller hands the values over (drawn last: the rest of the stream is as before)
+        q["xkind"] = rng.choice(X_KINDS)
+        q["wkind"] = rng.choice(W_KINDS)
     return dict(session=True, d=d, cells=cells, data=data, cuts=cuts, ops=ops, nmax=nmax)
 
 
@@ -166,8 +202,8 @@ def run_session(sess):
     from skmatter.clustering import _quick_shift as QSM
     from skmatter.metrics import periodic_pairwise_euclidean_distances as ppd
     cut_arrs = [np.array(c, dtype=float) for c in sess["cuts"]]
-    Xs = [np.array(q["X"], dtype=float).reshape(q["n"], q["dim"]) for q in sess["data"]]
-    ws = [np.array(q["w"], dtype=float) for q in sess["data"]]
+    Xs = [present_X(q["X"], q["n"], q["dim"], q.get("xkind", "f64")) for q in sess["data"]]
+    ws = [present_w(q["w"], q.get("wkind", "f64")) for q in sess["data"]]
     cell_arrs = [np.array(c, dtype=float) for c in sess["cells"]]
     mps = [{"cell_length": a} for a in cell_arrs]        # one dict per cell, shared by all constructors
     states = model_states(sess)
@@ -219,7 +255,7 @@ def run_session(sess):
             elif o["op"] == "setscale":
                 ests[o["e"]].set_params(scale=o["scale"])
             elif o["op"] == "setw":
-                ws[o["d"]][:] = np.array(o["w"], dtype=float)
+                ws[o["d"]][:] = present_w(o["w"], sess["data"][o["d"]].get("wkind", "f64"))
             else:
                 lab = getattr(ests[o["e"]], "labels_", None)
                 rec["labels"] = None if lab is None else [int(v) for v in lab]
@@ -233,9 +269,12 @@ def run_session(sess):
             final_w[o["d"]] = list(o["w"])
     return dict(trace=trace,
                 cuts_after=[[float(v) for v in a] for a in cut_arrs],
-                X_unchanged=all(np.array_equal(Xs[k], np.array(q["X"], dtype=float).reshape(q["n"], q["dim"]))
+                X_unchanged=all(np.array_equal(np.asarray(Xs[k], dtype=float),
+                                               np.array(q["X"], dtype=float).reshape(q["n"], q["dim"]))
                                 for k, q in enumerate(sess["data"])),
-                w_unchanged=all(np.array_equal(ws[k], np.array(final_w[k], dtype=float)) for k in range(len(ws))),
+                w_unchanged=all(np.array_equal(np.asarray(ws[k], dtype=float),
+                                               np.asarray(present_w(final_w[k], q.get("wkind", "f64")), dtype=float))
+                                for k, q in enumerate(sess["data"])),
                 cell_unchanged=all(np.array_equal(a, np.array(c, dtype=float)) and list(m.keys()) == ["cell_length"]
                                    for a, c, m in zip(cell_arrs, sess["cells"], mps)))
 
